@@ -21,3 +21,18 @@ Proof.
   unfold md5. destruct (md5_blocks _ _ _) as [[[a b] c] d].
   rewrite !app_length, !le32_length. reflexivity.
 Qed.
+
+Lemma md5_len l : len (md5 l) = 16%N.
+Proof. unfold len. rewrite md5_length. reflexivity. Qed.
+
+Lemma bytes_ok_le32 x : bytes_ok (le32 x) = true.
+Proof.
+  unfold le32, bytes_ok, byte_ok. cbn [forallb].
+  rewrite !andb_true_iff. repeat split; apply N.ltb_lt; apply N.mod_lt; discriminate.
+Qed.
+Lemma md5_bytes l : bytes_ok (md5 l) = true.
+Proof.
+  unfold md5. destruct (md5_blocks _ _ _) as [[[a b] c] d].
+  unfold bytes_ok. rewrite !forallb_app. fold (bytes_ok (le32 a)) (bytes_ok (le32 b)) (bytes_ok (le32 c)) (bytes_ok (le32 d)).
+  rewrite !bytes_ok_le32. reflexivity.
+Qed.
